@@ -53,7 +53,13 @@ contract('parso.normalizer.Issue.__init__',
 contract('parso.normalizer.Issue.__eq__', params={'self': 'ref:Issue', 'other': 'ref:Issue'}, returns='bool',
          requires=['other is not None'],
          ensures=['result == (self.start_pos == other.start_pos and self.code == other.code)'],
-         eq_on_ref='contract', props=['C20'])
+         eq_on_ref='contract', props=['C20'],
+         replay=dict(observe={'sp1': 'self.start_pos', 'c1': 'self.code', 'sp2': 'other.start_pos', 'c2': 'other.code'},
+                     script='from types import SimpleNamespace as N\nfrom parso.normalizer import Issue\n'
+                            'a = Issue(N(start_pos={sp1}, end_pos={sp1}), {c1}, "first message")\n'
+                            'b = Issue(N(start_pos={sp2}, end_pos={sp2}), {c2}, "second message")\n'
+                            'exp = ({sp1} == {sp2} and {c1} == {c2})\ngot = (a == b)\n'
+                            'return None if got == exp else "Issue.__eq__ gives %r, same (code, start) is %r" % (got, exp)\n'))
 # Normalizer.add_issue appends only if no equal (code, start_pos) issue exists: no (code, position) pair twice
 contract('parso.normalizer.Normalizer.add_issue',
          params={'self': 'ref:Normalizer', 'node': 'ref:NodeOrLeaf', 'code': 'int', 'message': 'str'}, returns='bool',
